@@ -128,6 +128,10 @@ impl Engine {
             | Op::HLen { slot }
             | Op::HPos { slot }
             | Op::HReadToEnd { slot }
+            | Op::HWriteV { slot, .. }
+            | Op::HReadV { slot, .. }
+            | Op::HReadUntil { slot, .. }
+            | Op::HRewind { slot }
             | Op::HClose { slot } => *slot as usize % self.handles.len(),
             _ => unreachable!("not a handle op"),
         };
@@ -166,17 +170,17 @@ impl Engine {
         let r = self.handle_op(slot, &mut h, op);
         let w1 = self.ctl.as_ref().map(|c| c.lock().unwrap().counters.writes).unwrap_or(0);
         if r.is_ok() {
-            if w1 > w0 && was_dirty && matches!(op, Op::HRead { .. } | Op::HReadExact { .. } | Op::HFillConsume { .. } | Op::HWrite { .. } | Op::HWriteAll { .. } | Op::HSeek { .. } | Op::HReadToEnd { .. }) {
+            if w1 > w0 && was_dirty && matches!(op, Op::HRead { .. } | Op::HReadExact { .. } | Op::HFillConsume { .. } | Op::HWrite { .. } | Op::HWriteAll { .. } | Op::HSeek { .. } | Op::HReadToEnd { .. } | Op::HWriteV { .. } | Op::HReadV { .. } | Op::HReadUntil { .. } | Op::HRewind { .. }) {
                 self.stats.bump("writeback_during_op");
                 self.writebacks += 1;
             }
             match op {
-                Op::HWrite { .. } | Op::HWriteAll { .. } => {
+                Op::HWrite { .. } | Op::HWriteAll { .. } | Op::HWriteV { .. } => {
                     if h.pos > pos0 {
                         self.own_writes[slot].push((pos0, h.pos));
                     }
                 }
-                Op::HRead { .. } | Op::HReadExact { .. } | Op::HFillConsume { .. } | Op::HReadToEnd { .. } => {
+                Op::HRead { .. } | Op::HReadExact { .. } | Op::HFillConsume { .. } | Op::HReadToEnd { .. } | Op::HReadV { .. } | Op::HReadUntil { .. } => {
                     if h.pos > pos0 {
                         if self.own_writes[slot].iter().any(|&(a, b)| a < h.pos && pos0 < b) {
                             self.stats.bump("read_own_writes");
@@ -191,7 +195,7 @@ impl Engine {
                 }
                 _ => {}
             }
-            if matches!(op, Op::HWrite { .. } | Op::HWriteAll { .. } | Op::HSetLen { .. }) {
+            if matches!(op, Op::HWrite { .. } | Op::HWriteAll { .. } | Op::HWriteV { .. } | Op::HSetLen { .. }) {
                 if self.ev_pred_removed {
                     self.stats.bump("handle_used_after_pred_removal");
                 }
@@ -324,6 +328,89 @@ impl Engine {
                     self.stats.bump("h_write_bytes");
                     self.note_resize(len, stream_data(&self.model, &h.path).len() as u64);
                 }
+            }
+            Op::HWriteV { data, a, b, .. } => {
+                let bytes = data.bytes();
+                let n = bytes.len();
+                let (mut i, mut j) = ((n * *a as usize) >> 16, (n * *b as usize) >> 16);
+                if i > j {
+                    std::mem::swap(&mut i, &mut j);
+                }
+                self.trace.push(format!("h{}.write_vectored([{}, {}, {}] bytes, seed {}) [pos {} len {}]", slot, i, j - i, n - j, data.seed, h.pos, len));
+                let slices = [std::io::IoSlice::new(&bytes[..i]), std::io::IoSlice::new(&bytes[i..j]), std::io::IoSlice::new(&bytes[j..])];
+                let res = guard("h_write_vectored", || h.stream.write_vectored(&slices))?;
+                let k = match res {
+                    Ok(k) => k,
+                    Err(e) => return Err(Fail::new("mismatch|h_write_vectored|valid|Ok|Err", format!("write_vectored at {} on {} failed: {}", h.pos, hp, e))),
+                };
+                if k > n || (k == 0 && n > 0) {
+                    return Err(Fail::new("mismatch|h_write_vectored|count|1..=len|other", format!("write_vectored of {} bytes returned {}", n, k)));
+                }
+                if k > 0 {
+                    let d = stream_data_mut(&mut self.model, &h.path);
+                    let end = h.pos as usize + k;
+                    if d.len() < end {
+                        d.resize(end, 0);
+                    }
+                    d[h.pos as usize..end].copy_from_slice(&bytes[..k]);
+                    h.pos = end as u64;
+                    h.dirty = true;
+                    self.stats.bump("h_write_bytes");
+                    self.note_resize(len, stream_data(&self.model, &h.path).len() as u64);
+                }
+            }
+            Op::HReadV { n1, n2, .. } => {
+                let (n1, n2) = (*n1 as usize, *n2 as usize);
+                self.trace.push(format!("h{}.read_vectored([{}, {}]) [pos {} len {}]", slot, n1, n2, h.pos, len));
+                let mut b1 = vec![0u8; n1];
+                let mut b2 = vec![0u8; n2];
+                let res = guard("h_read_vectored", || {
+                    let mut bufs = [std::io::IoSliceMut::new(&mut b1), std::io::IoSliceMut::new(&mut b2)];
+                    h.stream.read_vectored(&mut bufs)
+                })?;
+                let k = match res {
+                    Ok(k) => k,
+                    Err(e) => return Err(Fail::new("mismatch|h_read_vectored|valid|Ok|Err", format!("read_vectored on {} failed: {}", hp, e))),
+                };
+                let avail = (len - h.pos) as usize;
+                if k > (n1 + n2).min(avail) || (k == 0 && n1 + n2 > 0 && avail > 0) {
+                    return Err(Fail::new("mismatch|h_read_vectored|count|1..=min(n,avail)|other", format!("read_vectored([{}, {}]) at pos {} of {} (len {}) returned {}", n1, n2, h.pos, hp, len, k)));
+                }
+                let mut got = b1[..k.min(n1)].to_vec();
+                if k > n1 {
+                    got.extend_from_slice(&b2[..k - n1]);
+                }
+                let data = stream_data(&self.model, &h.path);
+                if got != data[h.pos as usize..h.pos as usize + k] {
+                    return Err(Fail::new("mismatch|h_read_vectored|bytes|model_bytes|other_bytes", describe_diff(&format!("{} read_vectored at {}", hp, h.pos), &data[h.pos as usize..h.pos as usize + k], &got)));
+                }
+                h.pos += k as u64;
+            }
+            Op::HReadUntil { byte, .. } => {
+                self.trace.push(format!("h{}.read_until({:#x}) [pos {} len {}]", slot, byte, h.pos, len));
+                let mut v = Vec::new();
+                let res = guard("h_read_until", || h.stream.read_until(*byte, &mut v))?;
+                if let Err(e) = res {
+                    return Err(Fail::new("mismatch|h_read_until|valid|Ok|Err", format!("read_until on {} failed: {}", hp, e)));
+                }
+                let data = stream_data(&self.model, &h.path);
+                let rest = &data[h.pos as usize..];
+                let want = match rest.iter().position(|b| b == byte) {
+                    Some(i) => &rest[..=i],
+                    None => rest,
+                };
+                if v != want {
+                    return Err(Fail::new("mismatch|h_read_until|bytes|model_bytes|other_bytes", describe_diff(&format!("{} read_until from {}", hp, h.pos), want, &v)));
+                }
+                h.pos += v.len() as u64;
+            }
+            Op::HRewind { .. } => {
+                self.trace.push(format!("h{}.rewind() [pos {} len {}]", slot, h.pos, len));
+                let res = guard("h_rewind", || h.stream.rewind())?;
+                if let Err(e) = res {
+                    return Err(Fail::new("mismatch|h_rewind|valid|Ok|Err", format!("rewind on {} failed: {}", hp, e)));
+                }
+                h.pos = 0;
             }
             Op::HSeek { s, .. } => {
                 let sf = resolve_seek(s, len, h.pos);
